@@ -101,7 +101,9 @@ def main():
     out = "/tmp/wt/%s-out/%s" % (tag, ch)
     tgt = "/tmp/wt/%s-target" % tag
     env = {"CARGO_TARGET_DIR": tgt, "CARGO_NET_OFFLINE": "true", "RUST_BACKTRACE": "0"}
-    kind, a, b = DEMOS.get((tag, ch)) or json.load(open(out + "/demo/confirm.json"))
+    import os.path
+    kind, a, b = DEMOS.get((tag, ch)) or (json.load(open(out + "/demo/confirm.json")) if os.path.exists(out + "/demo/confirm.json")
+                                          else ("sh", "bash {out}/demo/run.sh 2>&1 | tail -25; exit ${PIPESTATUS[0]}", None))
     res = {"property": prop, "tag": tag, "change": ch, "t": time.strftime("%H:%M:%S")}
     rc, o = sh("git status --porcelain", wt)
     if o.strip():
